@@ -83,6 +83,19 @@ func (panicStat) OnEntryPassed(ctx *base.EntryContext) {
 func (panicStat) OnEntryBlocked(*base.EntryContext, *base.BlockError) {}
 func (panicStat) OnCompleted(*base.EntryContext)                      {}
 
+// panicCheck is a user rule-check slot ordered before every built-in one; it panics for entries flagged with 2. The chain
+// recovers, the request is admitted without having been checked or counted by anybody, and its exit frees nothing: such an
+// entry is invisible to the isolation rule from beginning to end.
+type panicCheck struct{}
+
+func (panicCheck) Order() uint32 { return 500 }
+func (panicCheck) Check(ctx *base.EntryContext) *base.TokenResult {
+	if ctx.Input.Flag == 2 {
+		panic("user rule-check slot panics")
+	}
+	return nil
+}
+
 func TestSequential(t *testing.T) {
 	hx.Check(t, hx.N{Quick: 36000, Thorough: 400000}, func(t *rapid.T, c *hx.Case) {
 		hx.Reset(hx.Epoch + uint64(rapid.IntRange(0, 999).Draw(t, "t0")))
@@ -93,6 +106,7 @@ func TestSequential(t *testing.T) {
 		if userSlot {
 			sc := sentinel.BuildDefaultSlotChain()
 			sc.AddStatSlot(panicStat{})
+			sc.AddRuleCheckSlot(panicCheck{})
 			chainOpt = []sentinel.EntryOption{sentinel.WithSlotChain(sc)}
 			c.Class("custom-chain-with-panicking-user-stat-slot")
 		}
@@ -102,9 +116,13 @@ func TestSequential(t *testing.T) {
 			res string
 		}
 		var lives []lv
+		var ghosts []*base.SentinelEntry
 		defer func() {
 			for _, l := range lives {
 				l.e.Exit()
+			}
+			for _, g := range ghosts {
+				g.Exit()
 			}
 		}()
 		live := map[string]uint64{}
@@ -121,6 +139,10 @@ func TestSequential(t *testing.T) {
 				dt := uint64(rapid.SampledFrom([]int{1, 999, 10000, 59999, 60000, 60001, 600000, 86400000}).Draw(t, "dt"))
 				hx.C.AddMs(dt)
 				c.Op("advance %d ms", dt)
+				for _, g := range ghosts { // entries admitted by panic recovery leave: nothing is freed
+					g.Exit()
+				}
+				ghosts = nil
 				longFlight = longFlight || (dt > 60000 && len(lives) > 0)
 			case op <= 2:
 				res := rapid.SampledFrom([]string{"a", "b"}).Draw(t, "res")
@@ -144,11 +166,30 @@ func TestSequential(t *testing.T) {
 						opts = append(opts, sentinel.WithTrafficType(base.Inbound))
 					}
 				}
-				if userSlot && rapid.IntRange(0, 2).Draw(t, "slotPanics") == 0 {
-					opts = append(opts, sentinel.WithFlag(1))
+				ghost := false
+				if userSlot {
+					switch rapid.IntRange(0, 5).Draw(t, "slotPanics") {
+					case 0, 1:
+						opts = append(opts, sentinel.WithFlag(1))
+					case 2:
+						opts = append(opts, sentinel.WithFlag(2))
+						ghost = true
+					}
 				}
 				e, blk := sentinel.Entry(res, opts...)
-				c.Op("Entry(%s,batch %d) live=%d -> blocked=%v", res, b, live[res], blk != nil)
+				c.Op("Entry(%s,batch %d) live=%d -> blocked=%v ghost=%v", res, b, live[res], blk != nil, ghost)
+				if ghost { // admitted by the chain's recovery, never counted; exits now or later, in either case freeing nothing
+					if blk != nil {
+						t.Fatalf("a request whose rule-check slot panicked was blocked: %v", blk)
+					}
+					c.Class("entry-admitted-by-panic-recovery")
+					if rapid.Bool().Draw(t, "ghostExitsNow") {
+						e.Exit()
+					} else {
+						ghosts = append(ghosts, e)
+					}
+					continue
+				}
 				if (exp != "") != (blk != nil) {
 					if blk == nil {
 						lives = append(lives, lv{next, e, res})
